@@ -34,17 +34,17 @@ Example split_two_consumers_inline :
   l_bad (snd (fst st')) = [].
 Proof. vm_compute. repeat split. Qed.
 
-(* split_tuple: the predecessor's receiver holds a plain reference.  Consumer 1 starts the
-   predecessor; the predecessor stores v and sets predecessor_done; both consumers see the
-   flag, signal themselves, their receivers destroy their operation states: count 0, the
-   shared state is freed; the predecessor thread then executes std::lock_guard l{mtx} and
-   continuations.empty() on freed memory. *)
+(* split_tuple, the schedule that made the predecessor thread lock mtx and move `continuations`
+   in freed memory while its receiver held a plain reference: consumer 1 starts the predecessor;
+   the predecessor stores v and sets predecessor_done; both consumers see the flag, signal
+   themselves, their receivers destroy their operation states.  The receiver's own reference now
+   keeps the state alive until set_value returns. *)
 Example tuple_witness :
   let st := hl_run HTuple (CVal [1%N; 2%N]) 2 (with_oracle all_in [1; 0; 0; 1; 2; 2; 0; 0]) in
   l_rc (snd (fst st)) = 0 /\ l_alive (snd (fst st)) = false /\
-  l_rel (snd (fst st)) = [2; 1] /\
+  l_rel (snd (fst st)) = [0; 2; 1] /\
   l_reads (snd (fst st)) = [(2, 2, true, true, true); (1, 1, true, true, true)] /\
-  l_bad (snd (fst st)) = [(0, P3); (0, P2)].
+  l_bad (snd (fst st)) = [].
 Proof. vm_compute. repeat split. Qed.
 
 (* ================================================================== 1. the ghost operations *)
@@ -681,41 +681,19 @@ Section Life.
   Qed.
 End Life.
 
-Theorem handoff_tuple_state_partial c n sched e :
-  In e (l_bad (snd (fst (hl_run HTuple c n sched)))) -> e = (0, P2) \/ e = (0, P3).
-Proof. apply handoff_bad_only_pred_tail. Qed.
+Lemma holds_ref_all k : holds_ref k = true.
+Proof. destruct k; reflexivity. Qed.
 
-(* split_tuple: the predecessor's receiver holds `shared_state&`, nothing keeps the state alive
-   for the predecessor thread.  Consumer 1 starts the predecessor; the predecessor stores v and
-   sets predecessor_done; consumers 1 and 2 see the flag, signal themselves and their receivers
-   destroy the operation states: the count reaches 0 and the shared state is freed; the
-   predecessor thread then locks mtx in freed memory. *)
-Theorem handoff_tuple_state_refuted :
-  exists n sched, In (0, P2) (l_bad (snd (fst (hl_run HTuple (CVal [1%N; 2%N]) n sched)))).
-Proof.
-  exists 2, (with_oracle all_in [1; 0; 0; 1; 2; 2; 0]). vm_compute. now left.
-Qed.
-
-(* ... and reads `continuations` there *)
-Theorem handoff_tuple_state_refuted_P3 :
-  exists n sched, In (0, P3) (l_bad (snd (fst (hl_run HTuple (CVal [1%N; 2%N]) n sched)))).
-Proof.
-  exists 2, (with_oracle all_in [1; 0; 0; 1; 2; 2; 0; 0]). vm_compute. now left.
-Qed.
-
-(* even when the lock was taken in time: the state can die between P2 and P3 *)
-Theorem handoff_tuple_state_refuted_P3_only :
-  exists n sched, l_bad (snd (fst (hl_run HTuple (CVal [1%N; 2%N]) n sched))) = [(0, P3)].
-Proof.
-  exists 2, (with_oracle all_in [1; 0; 0; 0; 1; 2; 2; 0]). vm_compute. reflexivity.
-Qed.
+(* all three adaptors *)
+Theorem handoff_state_outlives_all k c n sched : l_bad (snd (fst (hl_run k c n sched))) = [].
+Proof. apply handoff_state_outlives, holds_ref_all. Qed.
 
 (* split_tuple with a stored continuation: consumer 1 stored its continuation, consumer 2
-   signalled itself and released; consumer 1's own reference keeps the state alive through the
-   predecessor's P2 and P3, and the state dies inside the last continuation (which is why the
-   code moves the continuations to a local first) *)
+   signalled itself and released; the last continuation releases the last consumer reference
+   inside the loop (the code moves the continuations to a local first, so it touches nothing of
+   the state afterwards); the state dies with r *)
 Example tuple_stored_continuation :
   let st := hl_run HTuple (CVal [1%N; 2%N]) 2 (with_oracle all_in [1; 1; 1; 1; 0; 0; 2; 2; 2; 0; 0]) in
-  l_bad (snd (fst st)) = [] /\ l_alive (snd (fst st)) = false /\ l_rel (snd (fst st)) = [1; 2] /\
+  l_bad (snd (fst st)) = [] /\ l_alive (snd (fst st)) = false /\ l_rel (snd (fst st)) = [0; 1; 2] /\
   l_reads (snd (fst st)) = [(1, 0, true, true, true); (2, 2, true, true, true)].
 Proof. vm_compute. repeat split. Qed.
